@@ -70,6 +70,16 @@ func TestW2CloseErr(t *testing.T) {
 				ops.add(fmt.Sprintf("x.closeerr cause=%s delay=%s rpc=%s", cause, b01(delay), b01(withRPC)), "start-failed:"+errClass(err))
 				return
 			}
+			// what Err() says at the very moment Done() is closed (not a moment later, when the receive loop has caught up)
+			atDone := make(chan string, 1)
+			go func() {
+				<-ch.Done()
+				if ch.Err() == nil {
+					atDone <- "nil"
+				} else {
+					atDone <- "err"
+				}
+			}()
 			rpc := "-"
 			if withRPC {
 				var resp wrapperspb.StringValue
@@ -114,8 +124,13 @@ func TestW2CloseErr(t *testing.T) {
 			if rpc != "-" && rpc != "nil" {
 				pre = "rpc=" + rpc + " " // the warm-up RPC on the open tunnel failed
 			}
+			at := "never"
+			select {
+			case at = <-atDone:
+			default:
+			}
 			ops.add(fmt.Sprintf("x.closeerr cause=%s delay=%s rpc=%s", cause, b01(delay), b01(withRPC)),
-				fmt.Sprintf("%sdone=%s err=%s late=%s", pre, done, errClass(ch.Err()), lateRes))
+				fmt.Sprintf("%sdone=%s err=%s atdone=%s late=%s", pre, done, errClass(ch.Err()), at, lateRes))
 			ch.Close()
 		})
 	}
